@@ -115,7 +115,7 @@ def capStep (separated : Bool) (s : CapState) (w : Wave) : Py CapState := do
   -- swing
   let features := match mode with
     | some m => match featGet features m with
-      | some f => featSet features m { f with swing := f.swing || containsSub key "d1".toList }
+      | some f => featSet features m { f with swing := f.swing || containsSub key cs!"d1" }
       | none => features
     | none => features
   pure { mode, minTemp, maxTemp, features, waveMap := dictSet s.waveMap key (w.para, w.hexCode) }
@@ -147,7 +147,7 @@ def cmdText (waveMap : List (List Char × (List Char × List Char))) (key : List
   | none => throw .keyError
 
 /-- `"00000000" + hexlify(str(command).encode()).decode()` -/
-def payloadHex (text : List Char) : List Char := "00000000".toList ++ hexlify (utf8Encode text)
+def payloadHex (text : List Char) : List Char := cs!"00000000" ++ hexlify (utf8Encode text)
 
 /-- the temperature `build_command` uses after clamping into the remote's range -/
 def clampTemp (r : Remote) (t : Int) : Int := if t > r.maxTemp then r.maxTemp else if t < r.minTemp then r.minTemp else t
@@ -156,8 +156,8 @@ def clampTemp (r : Remote) (t : Int) : Int := if t > r.maxTemp then r.maxTemp el
 def keyParts (r : Remote) (state mode : String) (targetTemp : Int) (fan swing : String) (current : Option String) :
     Py (List (List Char)) :=
   let pre : List (List Char) :=
-    if r.onOffType && (match current with | some c => c != state | none => false) then ["on_".toList] else []
-  let sw : List (List Char) := if swing == "ON" then ["_d1".toList] else []
+    if r.onOffType && (match current with | some c => c != state | none => false) then [cs!"on_"] else []
+  let sw : List (List Char) := if swing == "ON" then [cs!"_d1"] else []
   if mode == "AUTO" || mode == "DRY" || mode == "FAN" then
     match lookupS Gen.modeToCommand mode, lookupS Gen.fanLevelToCommand fan with
     | some mc, some fc => pure (pre ++ [mc.toList, ('_' :: fc.toList)] ++ sw)
@@ -171,7 +171,7 @@ def keyParts (r : Remote) (state mode : String) (targetTemp : Int) (fan swing : 
 /-- the key `build_command` finally looks up -/
 def chosenKey (r : Remote) (state mode : String) (targetTemp : Int) (fan swing : String) (current : Option String) :
     Py (List Char) :=
-  if !r.onOffType && state == "OFF" then pure "off".toList
+  if !r.onOffType && state == "OFF" then pure cs!"off"
   else do
     let parts ← keyParts r state mode targetTemp fan swing current
     let parts := if mode == "AUTO" || mode == "DRY" || mode == "FAN" || mode == "COOL" || mode == "HEAT"
